@@ -421,7 +421,8 @@ func (s *settledEv) Edge(st uint8, from *ssa.BasicBlock, succ int) uint8 {
 				}
 			}
 		}
-		if tested, isNil, ok := nilTest(iff, succ == 0); ok && s.carriers[tested] {
+		if tested, isNil, ok := nilTest(iff, succ == 0); ok && s.carriers[tested] && s.carriers[resolved(tested)] {
+			// (a variable shared with other calls settles this one only if, on this path, it holds this call's error)
 			if isNil {
 				if s.sameCallFailed(st, tested) {
 					return stInfeasible // this very error was already found non-nil on this path
